@@ -33,6 +33,8 @@ type obs struct {
 	scanned []osm.Object
 	serr    error
 	class   string
+	mode    int
+	full    []byte // wrapper patterns: the whole wrapper document
 }
 
 func newOf(typ string) interface{} {
@@ -63,8 +65,54 @@ func newOf(typ string) interface{} {
 	panic(typ)
 }
 
-func run(typ string, val interface{}, class string) *obs {
-	o := &obs{typ: typ, val: val, class: class}
+// Call patterns of the encoder (wave 7).  The property quantifies over values, not over the way
+// a value is handed to encoding/xml; the model's encoding is one function of the value, so every
+// pattern must give the same element:
+//
+//	ptr       xml.Marshal(&v)
+//	value     xml.Marshal(v)                      (v not addressable)
+//	field     xml.Marshal(W{V: v})                (value field of a wrapper passed by value)
+//	fieldptr  xml.Marshal(&W{V: v})               (value field of an addressable wrapper)
+//	slice     xml.Marshal(W{L: []T{v}})           (slice element of a wrapper passed by value)
+//	iface     xml.Marshal(W{I: interface{}(v)})   (value inside an interface field)
+//
+// For the wrapper patterns the element is what stands between <wrap> and </wrap>, and the decoder
+// is run on the whole wrapper document into the same wrapper type (value field / slice element as
+// decoding target), except for iface, which encoding/xml cannot decode into.
+const (
+	modePtr = iota
+	modeValue
+	modeField
+	modeFieldPtr
+	modeSlice
+	modeIface
+	nModes
+)
+
+var modeNames = [nModes]string{"ptr", "value", "field", "fieldptr", "slice", "iface"}
+
+// element names of the top-level types (OSM XML vocabulary, not read from /repo)
+var elementName = map[string]string{"Node": "node", "Way": "way", "Relation": "relation", "Changeset": "changeset", "Note": "note",
+	"User": "user", "Bounds": "bounds", "OSM": "osm", "Change": "osmChange", "Diff": "osm"}
+
+func wrapperType(typ string, t reflect.Type, mode int) reflect.Type {
+	tag := reflect.StructTag(`xml:"` + elementName[typ] + `"`)
+	f := reflect.StructField{Name: "V", Type: t, Tag: tag}
+	switch mode {
+	case modeSlice:
+		f.Type = reflect.SliceOf(t)
+	case modeIface:
+		f.Type = reflect.TypeOf((*interface{})(nil)).Elem()
+	}
+	return reflect.StructOf([]reflect.StructField{{Name: "XMLName", Type: reflect.TypeOf(xml.Name{}), Tag: `xml:"wrap"`}, f})
+}
+
+func run(typ string, val interface{}, class string) *obs { return runMode(typ, val, class, modePtr) }
+
+func runMode(typ string, val interface{}, class string, mode int) *obs {
+	o := &obs{typ: typ, val: val, class: class, mode: mode}
+	elem := reflect.ValueOf(val).Elem()
+	var wt reflect.Type
 	func() {
 		defer func() {
 			if r := recover(); r != nil {
@@ -72,7 +120,33 @@ func run(typ string, val interface{}, class string) *obs {
 				o.class = "panic"
 			}
 		}()
-		o.data, o.merr = xml.Marshal(val)
+		switch mode {
+		case modePtr:
+			o.data, o.merr = xml.Marshal(val)
+		case modeValue:
+			o.data, o.merr = xml.Marshal(elem.Interface())
+		default:
+			wt = wrapperType(typ, elem.Type(), mode)
+			wv := reflect.New(wt)
+			switch mode {
+			case modeSlice:
+				wv.Elem().Field(1).Set(reflect.Append(reflect.MakeSlice(reflect.SliceOf(elem.Type()), 0, 1), elem))
+			default:
+				wv.Elem().Field(1).Set(elem)
+			}
+			if mode == modeFieldPtr {
+				o.full, o.merr = xml.Marshal(wv.Interface())
+			} else {
+				o.full, o.merr = xml.Marshal(wv.Elem().Interface())
+			}
+			if o.merr == nil {
+				if !bytes.HasPrefix(o.full, []byte("<wrap>")) || !bytes.HasSuffix(o.full, []byte("</wrap>")) {
+					o.merr = fmt.Errorf("wrapper document has not the shape <wrap>…</wrap>: %.80s", o.full)
+				} else {
+					o.data = o.full[len("<wrap>") : len(o.full)-len("</wrap>")]
+				}
+			}
+		}
 	}()
 	if o.merr != nil {
 		return o
@@ -86,7 +160,23 @@ func run(typ string, val interface{}, class string) *obs {
 				o.class = "panic"
 			}
 		}()
-		o.uerr = xml.Unmarshal(o.data, o.v2)
+		if wt == nil || mode == modeIface {
+			o.uerr = xml.Unmarshal(o.data, o.v2)
+			return
+		}
+		wv := reflect.New(wt)
+		if o.uerr = xml.Unmarshal(o.full, wv.Interface()); o.uerr != nil {
+			return
+		}
+		got := wv.Elem().Field(1)
+		if mode == modeSlice {
+			if got.Len() != 1 {
+				o.uerr = fmt.Errorf("wrapper slice decoded to %d elements, 1 written", got.Len())
+				return
+			}
+			got = got.Index(0)
+		}
+		reflect.ValueOf(o.v2).Elem().Set(got)
 	}()
 	func() {
 		defer func() {
@@ -213,7 +303,7 @@ func build(o *obs, tree *xcodec.Tree, terr string, canary int) *wire.Case {
 		xcodec.Emit(&wire.Case{}, reflect.ValueOf(o.v2).Elem(), or)
 	}
 	or.EmitOracle(c)
-	desc := map[string]interface{}{"type": o.typ, "value": xcodec.Dump(reflect.ValueOf(o.val)), "xml": string(o.data)}
+	desc := map[string]interface{}{"type": o.typ, "marshal_call": modeNames[o.mode], "value": xcodec.Dump(reflect.ValueOf(o.val)), "xml": string(o.data)}
 	c.Bool(o.merr == nil && tree != nil)
 	if o.merr != nil || tree == nil {
 		desc["marshal_error"] = fmt.Sprint(o.merr, " ", terr)
@@ -333,6 +423,33 @@ func corpus() []*obs {
 			out = append(out, run("Diff", &osm.Diff{Actions: osm.Actions{{Type: osm.ActionModify, Old: &osm.OSM{Bounds: fb, Ways: osm.Ways{fw}}, New: &osm.OSM{Nodes: osm.Nodes{fn}}}}}, "corpus-fine-floats"))
 		}
 	}
+	// wave 7: every call pattern of the encoder (by value, as a value field / slice element /
+	// interface content of a wrapper) on one rich value per type; hand-written marshal hooks
+	// (dates of notes, discussions, bounds, containers) must be found through each of them
+	t1, t2 := time.Unix(1518888888, 0).UTC(), time.Unix(1600000000, 0).UTC()
+	fu := &osm.User{ID: 4, Name: "n", Description: "d<>", Languages: []string{"en", "de"}, CreatedAt: t1}
+	fu.Home.Lat, fu.Home.Lon, fu.Home.Zoom = 1.5, -2.5, 3
+	fnote := &osm.Note{ID: 3, Lat: 1.5, Lon: 2.5, URL: "u", Status: "open", DateCreated: osm.Date{Time: t1}, DateClosed: osm.Date{Time: t2},
+		Comments: []*osm.NoteComment{{Date: osm.Date{Time: t1}, UserID: 1, User: "u", Action: osm.NoteCommentOpened, Text: "x&y", HTML: "<p>"}, {Date: osm.Date{Time: t2}, Action: osm.NoteCommentClosed}}}
+	fcs := &osm.Changeset{ID: 5, User: "u", UserID: 2, CreatedAt: t1, ClosedAt: t2, MinLat: 1, MaxLat: 2, MinLon: 3, MaxLon: 4, Tags: osm.Tags{{Key: "k", Value: "v"}},
+		Discussion: &osm.ChangesetDiscussion{Comments: []*osm.ChangesetComment{{User: "u", UserID: 2, Timestamp: t2, Text: "t<>"}}}}
+	samples := []struct {
+		typ string
+		val interface{}
+	}{
+		{"Node", &osm.Node{ID: 1, Lat: 1.5, Lon: -2.25, Visible: true, Version: 3, Timestamp: t1, Committed: &t2, Tags: osm.Tags{{Key: "k", Value: "<&>"}}}},
+		{"Way", w1}, {"Relation", r1}, {"Changeset", fcs}, {"Note", fnote}, {"User", fu}, {"Bounds", b(1, 2, 3, 4)},
+		{"OSM", &osm.OSM{Version: "0.6", Generator: "g", Bounds: b(1, 2, 3, 4), Nodes: osm.Nodes{n1}, Ways: osm.Ways{w1}, Relations: osm.Relations{r1},
+			Changesets: osm.Changesets{fcs}, Notes: osm.Notes{fnote}, Users: osm.Users{fu}}},
+		{"Change", &osm.Change{Version: "0.6", Create: &osm.OSM{Bounds: b(1, 2, 3, 4), Nodes: osm.Nodes{n1}}, Modify: &osm.OSM{Ways: osm.Ways{w1}}, Delete: &osm.OSM{Relations: osm.Relations{r1}}}},
+		{"Diff", &osm.Diff{Actions: osm.Actions{{Type: osm.ActionCreate, OSM: &osm.OSM{Nodes: osm.Nodes{n1}}},
+			{Type: osm.ActionModify, Old: &osm.OSM{Bounds: b(1, 2, 3, 4), Ways: osm.Ways{w1}}, New: &osm.OSM{Ways: osm.Ways{w1}}}}}},
+	}
+	for _, sm := range samples {
+		for mode := modeValue; mode < nModes; mode++ {
+			out = append(out, runMode(sm.typ, sm.val, "corpus-call-"+modeNames[mode], mode))
+		}
+	}
 	// known findings of C04 (formats cannot carry these values)
 	out = append(out, run("Note", &osm.Note{ID: 2, DateCreated: osm.Date{Time: time.Unix(1600000000, 500000000).UTC()}}, "corpus-known-date"))
 	out = append(out, run("Changeset", &osm.Changeset{ID: 2, Discussion: &osm.ChangesetDiscussion{}}, "corpus-known-discussion"))
@@ -371,7 +488,10 @@ func main() {
 		for i := 0; i < n; i++ {
 			g.MaxLen = p.max
 			v := g.New(p.typ, p.depth)
-			all = append(all, run(p.typ, v, p.typ))
+			// every call pattern of the encoder in turn (ptr twice as often)
+			mode := i % (nModes + 1) % nModes
+			w.Count("marshal-call:" + modeNames[mode])
+			all = append(all, runMode(p.typ, v, p.typ, mode))
 		}
 	}
 
